@@ -29,20 +29,25 @@ OPS = {
             ["C06_AppendDenied", "C06_DeniedWriterCannotAppend", "C06_AppendedVerifies", "C06_AllOrNothing",
              "C06_OnlyValidAdded", "C06_BadCandidateRejected", "C06_ValidJoinSucceeds"]),
     "C15": (["C15_AlgoMeetsSpec"], [], ["C15_IterMeetsSpec"], []),
+    "C17": (["C17_LinksPointBack"], [], [],
+            ["C17_StoreClosed", "C17_WrittenBeforeReturned", "C17_Recoverable", "C17_PublishResult"]),
+    "C18": ([], [], [], ["C18_NoClearLinks", "C18_SameKeyRecovers", "C18_OtherKeyGetsNothing", "C18_AuditedSomething",
+                         "C06_AppendedVerifies", "C06_ValidJoinSucceeds"]),
     "C16": ([], ["C16_Bounded"], [], ["C16_NoPanic", "C16_LastN"]),
 }
 
 
 def base_consts(**kw):
     c = dict(NR=3, Writer0=[1, 2, 1], Lid=["X", "X", "X"], Fn="LWW", MaxE=4, MaxOps=6, PCs={1},
-             Sizes=set(), Writers=set(), Denied=[set(), set(), set()], HashPerm="id", IterOn=set(), Evil=set(), Kinds=set(), MaxBad=0)
+             Sizes=set(), Writers=set(), Denied=[set(), set(), set()], HashPerm="id", IterOn=set(), Evil=set(), Kinds=set(), MaxBad=0, PubOn=set())
     c.update(kw)
     return c
 
 
-def harness_cfg(consts, seed, codec="cbor"):
+def harness_cfg(consts, seed, codec="cbor", audit=""):
     return {"NR": consts["NR"], "Writer0": list(consts["Writer0"]), "Lid": list(consts["Lid"]),
-            "Fn": consts["Fn"], "Denied": [sorted(d) for d in consts["Denied"]], "Codec": codec, "Seed": seed}
+            "Fn": consts["Fn"], "Denied": [sorted(d) for d in consts["Denied"]], "Codec": codec, "Seed": seed,
+            "Audit": audit}
 
 
 def explore(specdir, name, consts, invs, props, workers=NCPU, timeout=1500, simulate=None, seed=1):
@@ -214,7 +219,7 @@ def run_family_l(prop, tier, seed, report, scratch, binpath, plans):
             (plan["name"], res.generated, res.distinct, time.time() - t0, len(scripts)))
         if not scripts:
             raise Inconclusive("TLC exported no history for " + plan["name"])
-        hcfg = harness_cfg(consts, seed, plan.get("codec", "cbor"))
+        hcfg = harness_cfg(consts, seed, plan.get("codec", "cbor"), plan.get("audit", ""))
         t1 = time.time()
         try:
             trace = replay(binpath, scratch, plan["name"], hcfg, scripts, plan.get("mode", "last"),
@@ -253,5 +258,14 @@ def run_family_l(prop, tier, seed, report, scratch, binpath, plans):
         "exhaustive": exhaustive,
         "layerP_operators": tinv + tprop, "layerM_operators": M_INV + M_PROP,
         "model_operators": minv + mprop,
+    })
+    nhist = sum(p.get("histories_replayed", 0) for p in report.coverage.get("plans", []))
+    report.coverage.update({
+        "evaluations": traces,
+        "distinct_nontrivial": nhist,
+        "rule": "one evaluation = one observed operation (pre/post state of every replica, the blocks it wrote and, for C17, "
+                "the loaders run against the store prefix at its return) validated by TLC; distinct = distinct operation "
+                "histories exported by TLC (each a different sequence of appends/joins/publications, all with at least one operation) "
+                "and replayed on the real code",
     })
     report.coverage["samples"] = samples
